@@ -74,6 +74,8 @@ type siteWalker struct {
 	nGlobal        int                  // top-level global entities
 	maxMD          int                  // largest metadata ID in the text
 	sites          []Site
+	attrDefSpans   [][2]int // text spans of the attribute group definitions
+	maxAttrGroup   int
 	globals        []string // names (without sigil) of named globals/functions
 	locals         []string // names of named locals, parameters, labels
 }
@@ -236,6 +238,18 @@ func (w *siteWalker) walk(n *ast.Node, parent *ast.Node, idxInParent int, sameTy
 				w.implicitComdat[strings.TrimPrefix(id.Text(), "@")] = true
 			}
 		}
+	case ll.AttrGroupID:
+		var gid int
+		if _, err := fmt.Sscanf(n.Text(), "#%d", &gid); err == nil && gid > w.maxAttrGroup {
+			w.maxAttrGroup = gid
+		}
+		if parent.Type() == ll.AttrGroupDef {
+			w.attrDefSpans = append(w.attrDefSpans, [2]int{parent.Offset(), parent.Endoffset()})
+			break
+		}
+		// The documented exception: an undefined attribute group is materialised as
+		// an empty group. It must still not crash the caller.
+		w.sites = append(w.sites, Site{Kind: "attrgroup:use redirected to an undefined group", Off: n.Offset(), End: n.Endoffset(), Text: n.Text(), Replace: "#ATTRGROUP"})
 	case ll.MetadataID:
 		var id int
 		if _, err := fmt.Sscanf(n.Text(), "!%d", &id); err == nil && id > w.maxMD {
@@ -470,6 +484,24 @@ func c05Sites(name, text string) ([]Site, error) {
 			w.sites = append(w.sites, Site{Kind: "use:comdat (implicit; its definition renamed away)", Off: n.Offset(), End: n.Endoffset(), Text: n.Text()})
 		}
 	}
+	// Attribute groups: the fresh ID of the redirects, and one fault that removes
+	// every definition (all uses dangle, and the module has no group at all).
+	for i := range w.sites {
+		if w.sites[i].Replace == "#ATTRGROUP" {
+			w.sites[i].Replace = fmt.Sprintf("#%d", w.maxAttrGroup+7)
+		}
+	}
+	if len(w.attrDefSpans) > 0 {
+		b := []byte(text)
+		for _, sp := range w.attrDefSpans {
+			for k := sp[0]; k < sp[1] && k < len(b); k++ {
+				if b[k] != '\n' {
+					b[k] = ' '
+				}
+			}
+		}
+		w.sites = append(w.sites, Site{Kind: "attrgroup:every definition removed", Off: 0, End: len(text), Text: "attributes #N = { ... }", Replace: string(b)})
+	}
 	// Cross-namespace alternatives.
 	isIn := func(set []string, x string) bool {
 		for _, y := range set {
@@ -563,6 +595,12 @@ func nearMiss(text, old string, mode int) string {
 		case mode == 8 && (old[0] == '%' || old[0] == '@' || old[0] == '!'):
 			// a number that does not fit in 64 bits (for % and @: a name made of digits)
 			cand = old[:1] + "99999999999999999999"
+		case mode == 11 && (old[0] == '%' || old[0] == '@') && isUnnamedIdent(old):
+			// the NAME made of the same digits: %"7" is not %7
+			cand = old[:1] + "\"" + old[1:] + "\""
+		case mode == 11 && len(old) >= 4 && (old[0] == '%' || old[0] == '@') && old[1] == '"' && old[len(old)-1] == '"' && isUnnamedIdent(old[:1]+old[2:len(old)-1]):
+			// ... and the other way round: the number where the name was meant
+			cand = old[:1] + old[2:len(old)-1]
 		case mode == 10 && len(old) >= 4 && old[1] == '"' && old[len(old)-1] == '"' && isUnnamedIdent(old[:1]+old[2:len(old)-1]):
 			// a quoted name made of digits, with a zero in front: "042" is not "42"
 			cand = old[:2] + "0" + old[2:]
@@ -793,6 +831,9 @@ func c05Run(sc *C05Scenario) *c05Outcome {
 			out.class = "panic"
 			out.sig = sc.Site.Kind + ": " + normDigits(clip(msg, 120))
 			out.detail = fmt.Sprintf("%s with %s (%s -> fault) crashes the caller under %s: %s", sc.Module, sc.Site.Kind, clip(sc.Site.Text, 60), order, msg)
+		case strings.HasPrefix(sc.Site.Kind, "attrgroup:") && !(m != nil && err != nil):
+			// (undefined attribute groups are the documented exception: accepted, with
+			// an empty group materialised — or rejected; anything but a crash)
 		case m != nil && err == nil:
 			out.class = "accepted"
 			out.sig = sc.Site.Kind
@@ -865,7 +906,7 @@ func c05Search() {
 				sum.Skipped["sites not sampled in the quick tier"]++
 				continue
 			}
-			for variant := 0; variant < 13; variant++ {
+			for variant := 0; variant < 14; variant++ {
 				cross, numeric := variant == 1, variant == 2
 				near := 0
 				if variant >= 3 {
@@ -906,7 +947,7 @@ func c05Search() {
 					sum.Counters["faulted inputs redirected to a one-character near miss of the original name"]++
 				}
 				if near >= 6 {
-					sum.Counters["faulted inputs redirected to "+map[int]string{6: "the NAME -0", 7: "the empty quoted name", 8: "a number beyond 64 bits", 9: "the number 2^63", 10: "a quoted all-digit name with a leading zero"}[near]]++
+					sum.Counters["faulted inputs redirected to "+map[int]string{6: "the NAME -0", 7: "the empty quoted name", 8: "a number beyond 64 bits", 9: "the number 2^63", 10: "a quoted all-digit name with a leading zero", 11: "the quoted name for a number / the number for a quoted all-digit name"}[near]]++
 				}
 				sum.Counters["fault kind "+siteClass(s.Kind)]++
 				sum.Counters["map-range visits in non-canonical order"] += o.nonIdentity
